@@ -4,7 +4,7 @@ import vlib
 from checks import servercommon as sc
 from checks import clientcommon as cc
 
-TRAPS = ["TrapCancelBetween", "TrapLateResponse", "TrapCancelInRecv"]
+TRAPS = ["TrapCancelBetween", "TrapLateResponse", "TrapCancelInRecv", "TrapCancelAtOffer"]
 WANT = {"misdelivery", "hang", "leak", "errors"}
 
 
@@ -12,6 +12,12 @@ def run(ctx, pid="C10", traps=TRAPS, want=WANT, cfgs=("Client_c10q.cfg", "Client
     ctx.tlc("ClientConn", cfgs[0] if ctx.quick else cfgs[1], coverage=not ctx.quick)
     seeds = [ctx.seed, ctx.seed + 100] if ctx.quick else [ctx.seed * 10 + i for i in range(8)]
     scheds, missing = sc.trap_schedules(ctx, "Client_trap.cfg", traps, seeds, mode="sim", module="MCClient", compiler=cc.schedule_from_states, depth=120)
+    if pid == "C10":
+        # the two windows a random simulation rarely enters are found breadth-first in the fault-free configuration
+        missing = [m for m in missing if m[0] not in ("TrapCancelInRecv", "TrapCancelAtOffer")]
+        s3, m3 = sc.trap_schedules(ctx, "Client_trap10.cfg", ["TrapCancelInRecv", "TrapCancelAtOffer"], [0], mode="bfs", module="MCClient", compiler=cc.schedule_from_states)
+        scheds += s3
+        missing += m3
     if extra:
         s2, m2 = extra(ctx)
         scheds += s2
@@ -20,7 +26,7 @@ def run(ctx, pid="C10", traps=TRAPS, want=WANT, cfgs=("Client_c10q.cfg", "Client
         ctx.note("trap windows not reached: %s" % [(t, s) for t, s, _ in missing])
     if len(scheds) < len(traps):
         raise vlib.Inconclusive("too few trap schedules: %d" % len(scheds))
-    scheds = [dict(s, id="%s-r%d" % (s["id"], k)) for s in scheds for k in range(3)]
+    scheds = [dict(s, id="%s-r%d" % (s["id"], k)) for s in scheds for k in range(4)]
     spath = os.path.join(ctx.work, "schedules.ndjson")
     vlib.write_ndjson(spath, scheds)
     binary = ctx.build_driver("client")
@@ -38,7 +44,7 @@ def run(ctx, pid="C10", traps=TRAPS, want=WANT, cfgs=("Client_c10q.cfg", "Client
     ctx.finish("model_checking", {
         "evaluations": nruns + len(panics),
         "distinct_nontrivial": ncancel if pid == "C10" else nfault,
-        "rule": "a run = one controlled execution of the real kmipclient (up to 3 concurrent callers on one client, up to 4 connection generations) against controller-operated in-memory servers under the gate controller; %d runs follow TLC-generated schedules into the windows %s (3 replays each), the rest are seeded random walks; non-trivial = runs with a cancellation (C10) / a server close or reset before the drain phase (C11); every run is validated step by step by TLC against TraceClient.tla (invariants NoMisdelivery, AtMostFour, ClosedFails, Recovers at every step) and judged by the oracle" % (len(scheds), ", ".join(traps)),
+        "rule": "a run = one controlled execution of the real kmipclient (up to 3 concurrent callers on one client, up to 6 connection generations; in two thirds of the runs two seconds of virtual time pass before every call) against controller-operated in-memory servers under the gate controller; %d runs follow TLC-generated schedules into the windows %s (4 replays each), the rest are seeded random walks; non-trivial = runs with a cancellation (C10) / a server close or reset before the drain phase (C11); every run is validated step by step by TLC against TraceClient.tla (invariants NoMisdelivery, AtMostFour, ClosedFails, Recovers at every step) and judged by the oracle" % (len(scheds), ", ".join(traps)),
         "trap_schedules": len(scheds), "events_validated": len(log), "runs_with_cancellation": ncancel, "runs_with_fault": nfault,
         "samples": [scheds[0]] + runs[len(runs) // 2][:25],
     }, assumptions=["controlled runs are macro-step sequences (one shared-memory operation per release); see C08",
